@@ -283,12 +283,15 @@ class Vault(AsyncIterable[tuple[VaultKey, KubeContext]]):
         """
         purpose = purpose if purpose is not None else repr(factory)
         async for key, item in self._items():
-            if item.caches is None:  # quick-check with no locking overhead.
+            if item.caches is None or purpose not in item.caches:  # quick-check with no locking.
                 async with self._guard:
+                    # While this task was waiting for the lock, the item could have been expired
+                    # or invalidated (and its caches flushed) by other tasks. Do not revive it:
+                    # neither the caches nor the cached objects -- go for the next available item.
+                    if key not in self._current or self._current[key] is not item:
+                        continue
                     if item.caches is None:  # securely synchronised check.
                         item.caches = {}
-            if purpose not in item.caches:  # quick-check with no locking overhead.
-                async with self._guard:
                     if purpose not in item.caches:  # securely synchronised check.
                         item.caches[purpose] = factory(item.info)
             yield key, item.info, cast(_T, item.caches[purpose])
